@@ -7,11 +7,15 @@ from prop_C14 import write_grid
 
 LEVEL = "proof"
 RULE = ("correspondence: gwb-grid built from the tree is run on small generated grids (cartesian 2-D/3-D, chunk 2-D/3-D, annulus; 1-6 cells per direction incl. single cells and odd counts, random "
-        "bounds) over generated worlds; the ASCII .vtu is parsed and its points, Depth and connectivity are compared with the Lean mesh model (6 significant digits, as printed). "
+        "bounds; sphere: hollow shells and full spheres down to r = 0, n_cell_x = n_cell_y in 1..4, n_cell_z in 1..3, every (n_cell_x, n_cell_z, hollow/full) combination once per run plus random "
+        "ones over generated worlds) over generated worlds; the ASCII .vtu is parsed and its points, Depth and connectivity are compared with the Lean mesh model (6 significant digits, as printed); "
+        "for the sphere also the node count (n_cell_z+1)(12 n_cell_x^2+2), which the Lean theorems leave open, is compared with the tool and the model. "
         "oracle (statement-level): node/cell counts, every connectivity entry < number of points, offsets = multiples of 2^dim, Depth = top of the grid minus z (radius), and Temperature, "
-        "velocity, Tag and every composition at each node equal to the library's answer at the node's position and depth (in-process harness); --filtered / --by-tag outputs contain exactly "
-        "the cells whose highest node tag is selected, with unchanged node values; the sphere grid is checked structurally only. non-trivial = a node inside some feature.")
-TRUSTED_BASE = ["the sphere grid is not modelled: only the structural checks of the oracle apply to it", "vtu11's ASCII writer and the 6-digit text precision"]
+        "velocity, Tag and every composition at each node equal to the library's answer at the node's position and depth (in-process harness; sphere grids included, at the model's exact node "
+        "positions); --filtered / --by-tag outputs contain exactly the cells whose highest node tag is selected, with unchanged node values. non-trivial = a node inside some feature.")
+TRUSTED_BASE = ["sphere grid: the whole branch (reference points, lay_points, project_on_sphere, point de-duplication, renumbering, layers) is modelled and compared; what is NOT a theorem is the "
+                "closed form 12 n^2 + 2 of the number of shell points (it depends on floating-point distance tests; stated as C18_sphere_node_count_full, checked by the correspondence for n = 1..4)",
+                "vtu11's ASCII writer and the 6-digit text precision"]
 ASSUMPTIONS = ["the annulus cell count n_cell_t is the truncation of the model's annulusQuotient evaluated in double arithmetic"]
 
 
@@ -43,9 +47,19 @@ def rand_grid(rng, gtype, dim):
         else:
             # a 2-D chunk grid file without y_min/y_max is rejected by gwb-grid (NaN <= NaN assertion): the tool demands them although unused
             o["y_min"] = 0; o["y_max"] = 0
+    elif gtype == "sphere":
+        # n_cell_y is only read by a debug-only WBAssert (n_cell_x == n_cell_y); z_min = 0 is the full sphere
+        ncx = rng.choice([1, 2, 3, 4])
+        o = {"x_min": 0, "x_max": 0, "y_min": 0, "y_max": 0, "z_min": rng.choice([0, 0, 3471000, 5371000, 6071000]), "z_max": 6371000, "n_cell_x": ncx, "n_cell_y": ncx,
+             "n_cell_z": rng.choice([1, 2, 3])}
     else:
         o = {"x_min": 0, "x_max": 0, "z_min": rng.choice([3471000, 5371000]), "z_max": 6371000, "n_cell_x": n(), "n_cell_z": rng.choice([1, 2, 3])}
     return o
+
+
+def sphere_counts(ncx, ncz):
+    """nodes and cells of the sphere grid: 12 blocks of ncx x ncx quadrilaterals per layer, whose shared edge points are merged (Euler: 12 n^2 + 2 points per layer)"""
+    return (ncz + 1) * (12 * ncx * ncx + 2), 12 * ncx * ncx * ncz
 
 
 def run_grid(bin_, rd, w, gtype, dim, opts, comps, flags=()):
@@ -64,6 +78,7 @@ def cases_for(seed, tier, n):
     cart = gen_worlds(rng, wdir, "c", max(4, n // 2), {"with_random": False, "with_lines": True, "max_features": 4, "spherical": False})
     sph = gen_worlds(rng, wdir, "s", max(4, n // 2), {"with_random": False, "with_lines": True, "max_features": 4, "spherical": True})
     out = []
+    total = n
     combos = [("cartesian", 2), ("cartesian", 3), ("chunk", 2), ("chunk", 3), ("annulus", 2)]
     for k in range(n):
         gtype, dim = combos[k % len(combos)]
@@ -101,6 +116,33 @@ def cases_for(seed, tier, n):
                 opts = {"x_min": 0, "x_max": 0, "z_min": radius - rng.choice([300e3, 600e3]), "z_max": radius, "n_cell_x": n() + 4, "n_cell_z": rng.choice([2, 3])}
         comps = rng.choice([0, 1, 3])
         out.append((bin_, os.path.join(wdir, "run_%d" % k), w, g, gtype, dim, opts, comps))
+    # the sphere grid over generated spherical worlds (appended, so that the cases above do not depend on it): hollow shells and full spheres alternate
+    for k in range(max(4, total // 5)):
+        withf = [x for x in sph if len(x[1].get("features", [])) >= 2] or sph
+        path, w, g = rng.choice(withf if k % 3 != 2 else sph)
+        w = dict(w)
+        opts = rand_grid(rng, "sphere", 3)
+        opts["z_max"] = w.get("coordinate system", {}).get("radius", 6371000.0)
+        if k % 2 == 0:
+            opts["z_min"] = 0
+        elif opts["z_min"] == 0 or opts["z_min"] >= opts["z_max"]:
+            opts["z_min"] = opts["z_max"] - rng.choice([300e3, 1000e3, 2900e3])
+        out.append((bin_, os.path.join(wdir, "run_s%d" % k), w, g, "sphere", 3, opts, rng.choice([0, 1, 3])))
+    return out
+
+
+def sphere_sweep(seed, bin_, wdir):
+    """every (n_cell_x, n_cell_z, hollow/full) combination once, over an empty spherical world; the radii vary with the seed"""
+    rng = random.Random(seed * 8191 + 1818)
+    w = {"version": "1.1", "coordinate system": {"model": "spherical", "depth method": "begin segment"}, "features": []}
+    out = []
+    for ncx in (1, 2, 3, 4):
+        for ncz in (1, 2, 3):
+            for full in (False, True):
+                zmax = rng.choice([6371000, 6371000, 3389500, 1737400, 1.0, 2.5])
+                zmin = 0 if full else zmax * rng.choice([0.25, 0.5448124313294617, 0.75, 0.9])
+                o = {"x_min": 0, "x_max": 0, "y_min": 0, "y_max": 0, "z_min": zmin, "z_max": zmax, "n_cell_x": ncx, "n_cell_y": ncx if rng.random() < 0.8 else ncx + 1, "n_cell_z": ncz}
+                out.append((bin_, os.path.join(wdir, "run_sweep_%d_%d_%d" % (ncx, ncz, full)), w, None, "sphere", 3, o, 0))
     return out
 
 
@@ -110,7 +152,10 @@ def close6(a, b, scale=1.0):
 
 def correspondence(seed, tier):
     cs = cases_for(seed, tier, budget(tier, 20, 200))
+    if cs:
+        cs = cs + sphere_sweep(seed, cs[0][0], proto.workdir("C18"))
     mism, n, nontriv, samples = [], 0, 0, []
+    nsphere, nsphere_full, sphere_ok = 0, 0, 0
     for (bin_, rd, w, g, gtype, dim, opts, comps) in cs:
         r, wp = run_grid(bin_, rd, w, gtype, dim, opts, comps)
         vt = os.path.join(rd, "w.vtu")
@@ -136,6 +181,11 @@ def correspondence(seed, tier):
             what = "Depth differs"
         elif v["data"]["connectivity"] != mc:
             what = "connectivity differs"
+        elif gtype == "sphere" and (v["np"], v["ncell"]) != sphere_counts(opts["n_cell_x"], opts["n_cell_z"]):
+            # not a theorem of the model (the de-duplication is a floating-point distance test): C18_sphere_node_count_full
+            what = "sphere: %d points / %d cells, the closed form gives %d / %d" % ((v["np"], v["ncell"]) + sphere_counts(opts["n_cell_x"], opts["n_cell_z"]))
+        if gtype == "sphere":
+            nsphere += 1; nsphere_full += 1 if opts["z_min"] == 0 else 0; sphere_ok += 0 if what else 1
         if what:
             mism.append({"what": "%s %dD %s: %s" % (gtype, dim, opts, what), "scope": "gwb-grid mesh", "grid": [gtype, dim, opts], "world_json": w, "cmd": cmd})
         if v["ncell"] > 1:
@@ -143,13 +193,14 @@ def correspondence(seed, tier):
         if len(samples) < 3:
             samples.append({"grid": [gtype, dim, opts], "points": v["np"], "cells": v["ncell"]})
         shutil.rmtree(rd, ignore_errors=True)
-    return {"summary": {"cases": n, "mismatches": len(mism), "nontrivial": nontriv, "values_compared": n, "bit_identical": n - len(mism), "bit_identical_share": (n - len(mism)) / max(1, n)},
+    return {"summary": {"cases": n, "mismatches": len(mism), "nontrivial": nontriv, "values_compared": n, "bit_identical": n - len(mism), "bit_identical_share": (n - len(mism)) / max(1, n),
+                        "sphere_cases": nsphere, "sphere_full_spheres": nsphere_full, "sphere_cases_agreeing": sphere_ok},
             "mismatches": mism, "samples": samples}
 
 
 def oracle(seed, tier):
     cs = cases_for(seed + 7, tier, budget(tier, 15, 150))
-    # plus the sphere grid, structurally
+    # (the cases include sphere grids over generated worlds; further below: fixed sphere grids over an empty world, structurally)
     viol, n, nontriv, samples, nexact = [], 0, 0, [], 0
     for idx, (bin_, rd, w, g, gtype, dim, opts, comps) in enumerate(cs):
         flags = [("--filtered",), ("--by-tag",), (), ("--filtered", "--by-tag"), ("--by-tag", "--filtered")][idx % 5]
@@ -165,6 +216,8 @@ def oracle(seed, tier):
         nx, ny, nz = opts.get("n_cell_x", 1), opts.get("n_cell_y", 1), opts.get("n_cell_z", 1)
         if gtype != "annulus":
             exp_np = (nx + 1) * (nz + 1) * ((ny + 1) if dim == 3 else 1); exp_nc = nx * nz * (ny if dim == 3 else 1)
+            if gtype == "sphere":
+                exp_np, exp_nc = sphere_counts(nx, nz)
             if (v["np"], v["ncell"]) != (exp_np, exp_nc):
                 bad("%d points / %d cells, requested %d / %d" % (v["np"], v["ncell"], exp_np, exp_nc)); continue
         if len(D["connectivity"]) != v["ncell"] * nv or any(c < 0 or c >= v["np"] for c in D["connectivity"]):
@@ -173,6 +226,8 @@ def oracle(seed, tier):
             bad("offsets are not multiples of the cell size"); continue
         P = D["points"]
         top = opts["z_max"]
+        if any(not math.isfinite(x) for x in P) or any(not math.isfinite(x) for x in D["Depth"]):
+            bad("node positions / Depth contain values that are not finite numbers"); continue
         # exact node positions: the Lean mesh model (compared with the file to its 6 printed digits by the correspondence stage)
         b = [opts.get(k, 0) for k in ("x_min", "x_max", "y_min", "y_max", "z_min", "z_max")]
         cmd = "grid %s %d %d %d %d %s" % (gtype, dim, nx, ny, nz, " ".join(fhex(x) for x in b))
@@ -223,7 +278,7 @@ def oracle(seed, tier):
                     nbad += 1
                     first = first or {"node": i, "field": k, "file": got[k], "library": exp[k], "point": pt}
         # with exact node positions every value must agree to the printed digits; with positions read back from the file (6 digits) nodes
-        # sitting on feature boundaries may legitimately differ, so a small fraction is tolerated there (sphere grid / unmodelled meshes only)
+        # sitting on feature boundaries may legitimately differ, so a small fraction is tolerated there (unmodelled meshes only)
         if (exact and nbad > 0) or nbad > max(2, 0.1 * v["np"] * (4 + comps)):
             bad("%d node values differ from the library's answer at the node (of %d nodes); first: %s" % (nbad, v["np"], first))
         # filtered / by-tag outputs: exactly the cells whose highest node tag is selected, in order, node data unchanged, connectivity into the output's own nodes
@@ -267,11 +322,11 @@ def oracle(seed, tier):
         if len(samples) < 3:
             samples.append({"grid": [gtype, dim, opts], "flags": list(flags), "nodes": v["np"]})
         shutil.rmtree(rd, ignore_errors=True)
-    # the sphere grid: structural checks only
+    # the sphere grid over an empty world: structural checks (layers, Depth, finite values)
     if cs:
         bin_, rd, w, g, gtype, dim, opts, comps = cs[0]
         w2 = {"version": "1.1", "coordinate system": {"model": "spherical", "depth method": "begin segment"}, "features": []}
-        # hollow shells and the full sphere down to the centre (z_min = 0: the innermost layer is the single point r = 0)
+        # hollow shells and the full sphere down to the centre (z_min = 0: the innermost layer consists of 12 n^2 + 2 nodes which all lie at r = 0; Lean: C18_sphere_centre_field)
         for (zmin, ncz, ncx) in ((5371000, 2, 2), (3471000, 3, 2), (0, 1, 3), (0, 3, 2)):
             o = {"x_min": 0, "x_max": 0, "y_min": 0, "y_max": 0, "z_min": zmin, "z_max": 6371000, "n_cell_x": ncx, "n_cell_y": ncx, "n_cell_z": ncz}
             sd = rd + "_sphere_%d_%d" % (zmin, ncz)
